@@ -98,3 +98,18 @@ info('C06',
      ['LegPipe._init_from_legs / map_incoming_flat as deductive obligations: not built (bounded only)',
       'quick tier strides through the pair domain (every 11th pair); only the thorough tier is exhaustive'],
      [A_BUILD], configs=BOTH)
+info('C07',
+     'P: MPSGeometry._to_valid_site_index/_to_valid_bond_index index normalisation (see contracts/c_mps.py). '
+     'B (bounded, not proof): constructors (from_full, from_product_state, from_Bflat + canonical_form, from_singlets) and random '
+     'histories of form conversions/canonicalisations against the dense state, Schmidt values and entropies at every cut, the '
+     'recorded norm; infinite MPS under canonical_form_infinite1/2 keep their observables.',
+     ['numerical canonicalisation: bounded only', 'segment MPS and from_mps_covering: not covered'],
+     [])
+info('C08',
+     'B (bounded, not proof): every measurement function named in the statement on random finite MPS of one charge sector for all '
+     'site families, against the dense state vector and kron operators with explicit Jordan-Wigner strings: expectation_value, '
+     'expectation_value_term(s_sum), correlation_function (all i<j, i=j, i>j; fermionic; operator strings), overlap, '
+     'MPSEnvironment with bra != ket, get_rho_segment, average_charge/charge_variance, sample_measurements weights.',
+     ['everything here is numerical: this family contributes no discharged obligation for C08 beyond the shared sign-algebra '
+      'obligations of C10/C12; infinite and segment states are not compared'],
+     [])
